@@ -659,3 +659,14 @@ mutant('T5-merge-ignores-retention', ['C10'], [
 mutant('T5-zero-increment-creates-transition', ['C10'], [
     (PS, "            if balance == 0 {\n                continue;\n            }\n            let mut account = self.load_mut_cache_account(address)?;", "            let mut account = self.load_mut_cache_account(address)?;"),
 ], ['|T5|'])
+
+mutant('N10-commit-uses-wrong-tx-env', ['C02'], [
+    (S, "committer.commit(commit_idx, &self.txs[commit_idx], result, &mut output);", "committer.commit(commit_idx, &self.txs[commit_idx.saturating_sub(1)], result, &mut output);"),
+], ['|N10|'])
+
+mutant('WHO-worker-advances-commit-cursor', ['C02'], [
+    (S, "        self.scheduler_ctx.executed(txid);\n", "        self.scheduler_ctx.executed(txid);\n        if txid == 0 && !conflict && self.block_size == 1 {\n            self.scheduler_ctx.publish_commit(0);\n        }\n"),
+], ['|WHO|'])
+mutant('WHO-next-clears-tx-results', ['C02'], [
+    (S, "                        tx.status = TransactionStatus::Validating;\n                        return Some(Task::Validation(TxVersion::new(\n                            validation_idx,", "                        tx.status = TransactionStatus::Validating;\n                        if tx.incarnation > 1_000_000 {\n                            let _ = self.tx_results[validation_idx].lock().take();\n                        }\n                        return Some(Task::Validation(TxVersion::new(\n                            validation_idx,"),
+], ['|WHO|'])
